@@ -7,7 +7,7 @@ import json, os, shutil
 import world
 
 MIB = 1024 * 1024
-VARIANTS = ["grow-linked-pair", "shrink-tiny-with-twin", "shrink-small-with-twin", "grow-with-twin"]
+VARIANTS = ["grow-linked-pair", "shrink-tiny-with-twin", "shrink-small-with-twin", "grow-with-twin", "exact-gate-with-twin"]
 
 
 def _put(path, data, mt):
@@ -31,7 +31,9 @@ def run_variant(sc, seed, vi):
         unchanged = []
     else:
         # a destination file with a second name (twin) whose own source is unchanged; the first name's source changes size class
-        old_size, new_size = {"shrink-tiny-with-twin": (big, 100 + vi), "shrink-small-with-twin": (big, 1 * MIB + 5), "grow-with-twin": (2 * MIB + 9, big)}[name]
+        # (seed C13-5: `<` against `<=` at the gate) exact-gate: the destination is EXACTLY 10 MiB, where the two gates have to meet
+        old_size, new_size = {"shrink-tiny-with-twin": (big, 100 + vi), "shrink-small-with-twin": (big, 1 * MIB + 5), "grow-with-twin": (2 * MIB + 9, big),
+                              "exact-gate-with-twin": (10 * MIB, 10 * MIB)}[name]
         old = world.pbytes(seed + 4, old_size)
         _put(dst + "/a.bin", old, 100); os.link(dst + "/a.bin", dst + "/twin.bin")
         _put(src + "/twin.bin", old, 100)
